@@ -95,6 +95,8 @@ func main() {
 		stats = runCrash(*seed, *n, out, *thorough)
 	case "order":
 		stats = runOrder(*seed, *n, out, *thorough)
+	case "omap":
+		stats = runOMap(*seed, *n, out, *thorough)
 	default:
 		fmt.Fprintln(os.Stderr, "unknown stream", stream)
 		os.Exit(2)
